@@ -1983,7 +1983,7 @@ INDEX_PARAMS = {'row', 'axis', 'index', 'idx', 'clazz', 'class', 'neuron', 'comp
 DIM_PARAMS = {'dim', 'dimension', 'n', 'size', 'width'}
 
 
-def check_index_guards(ctx, rule, qnames, dim_of=None):
+def check_index_guards(ctx, rule, qnames, dim_of=None, min_dim=None):
     """A constructor that takes an index and a dimension may guard the pair only with `index < dim`: every index below the dimension is a
     legal argument (a guard that fails for one of them turns a documented call into a panic), and an index equal to the dimension is not."""
     from ..mir import strip_sites as s_
@@ -2031,7 +2031,59 @@ def check_index_guards(ctx, rule, qnames, dim_of=None):
                     n += 1
                     if rel != 'Lt':
                         bad.append('%s %s %s' % (x[1], {'Le': '<=', 'Gt': '>', 'Ge': '>=', 'Eq': '==', 'Ne': '!='}.get(rel, rel), y[1]))
+            # a lower bound on the dimension itself (`dim >= 2`): the smallest documented dimension must pass it
+            if min_dim and q in min_dim:
+                import operator
+                OPF = {'Lt': operator.lt, 'Le': operator.le, 'Gt': operator.gt, 'Ge': operator.ge, 'Eq': operator.eq, 'Ne': operator.ne}
+                for bb, e in R.return_expr():
+                    for op, x, y in cmp_facts(literals(b, R, bb)):
+                        x, y = s_(x), s_(y)
+                        if x in dims and y[0] == 'const' and isinstance(y[1], int) and not isinstance(y[1], bool):
+                            if not OPF[op](min_dim[q], y[1]):
+                                bad.append('%s %s %s (dimension %d is legal)' % (x[1], op, y[1], min_dim[q]))
+                        elif y in dims and x[0] == 'const' and isinstance(x[1], int) and not isinstance(x[1], bool):
+                            if not OPF[op](x[1], min_dim[q]):
+                                bad.append('%s %s %s (dimension %d is legal)' % (x[1], op, y[1], min_dim[q]))
             if bad:
                 ctx.bad(rule, site, 'the result is only built under %s: the legal arguments are exactly the indices below the dimension' % ', '.join(sorted(set(bad))), b.span)
             else:
                 ctx.ok(rule, site, 'every guard on an (index, dimension) pair is `index < dim` (%d found)' % n, b.span)
+
+
+def check_loop_exhaustive(ctx, rule, q, site_suffix, what):
+    """The main loop of `q` (the outermost loop driven by an iterator's `next`) is left only when that iterator is exhausted: a `break` or
+    an early return inside it leaves the remaining items unprocessed."""
+    bodies = [b for b in ctx.facts.bodies if b.qname == q]
+    if len(bodies) != 1:
+        ctx.lost(rule, q)
+        return
+    b = bodies[0]
+    R = Resolver(b)
+    cfg = b.cfg()
+    site = q + site_suffix
+    hdrs = [h for h in cfg.loop_headers() if isinstance(h, int)]
+    if not hdrs:
+        ctx.undecided(rule, site, 'no loop found', b.span)
+        return
+    h = max(hdrs, key=lambda x: len(cfg.loop_of(x)))
+    exits = cfg.loop_exits(h)
+
+    def exhausted(e):
+        tgt = e[1]
+        lits_ = literals(b, R, tgt) if isinstance(tgt, int) else []
+        return any(l[0] == 'is' and len(l) > 2 and set(l[2]) == {'None'} and is_call(l[1], 'Iterator::next', 'DfsPre::next', 'Bfs::next', 'DfsEdge::next', 'PolyhedraGen::next')
+                   for l in lits_)
+    # error exits (`?` on a fallible step) are fine: the function then fails as a whole
+    def is_error_return(e):
+        tgt = e[1]
+        if not isinstance(tgt, int):
+            return False
+        for bb_, x in R.return_expr():
+            pass
+        lits_ = literals(b, R, tgt)
+        return any(l[0] == 'is' and len(l) > 2 and set(l[2]) <= {'Err', 'Break'} for l in lits_)
+    bad = [e for e in exits if not exhausted(e) and not is_error_return(e)]
+    if not exits or bad:
+        ctx.bad(rule, site, 'the loop can be left before its iterator is exhausted (%d of %d exits): %s' % (len(bad), len(exits), what), b.span)
+    else:
+        ctx.ok(rule, site, 'the loop ends only when its iterator is exhausted (or the function fails)', b.span)
